@@ -65,9 +65,23 @@ func (r *Reader) readXRef() (map[uint32]*xRefEntry, Dict, error) {
 	xref := make(map[uint32]*xRefEntry)
 	trailer := Dict{}
 	first := true
+	// seen is keyed by the position of the first byte which is not white
+	// space: offsets which differ only by leading white space name the same
+	// section, and decoding it once per spelling is quadratic work
 	seen := make(map[int64]bool)
-	for !seen[start] {
-		seen[start] = true
+	// tables of a well-formed file are disjoint, so that the total number of
+	// bytes read as cross-reference tables cannot exceed the file size; this
+	// bounds the work for chains of overlapping tables
+	var tableBytes int64
+	for {
+		key, err := r.xrefKey(start)
+		if err != nil {
+			return nil, nil, err
+		}
+		if seen[key] {
+			break
+		}
+		seen[key] = true
 
 		s, err := r.scannerFrom(start, false)
 		if err != nil {
@@ -86,6 +100,13 @@ func (r *Reader) readXRef() (map[uint32]*xRefEntry, Dict, error) {
 			if err != nil {
 				return nil, nil, Wrap(err, fmt.Sprintf("table at byte %d", start))
 			}
+			tableBytes += s.CurrentPos() - start
+			if tableBytes > size {
+				return nil, nil, &MalformedFileError{
+					Err: errors.New("overlapping cross-reference tables"),
+					Loc: []string{fmt.Sprintf("table at byte %d", start)},
+				}
+			}
 
 			if xRefStm, ok := dict["XRefStm"]; ok {
 				zStart, ok := xRefStm.(Integer)
@@ -97,8 +118,12 @@ func (r *Reader) readXRef() (map[uint32]*xRefEntry, Dict, error) {
 				// decode each distinct cross-reference stream at most once;
 				// a /Prev chain may share one /XRefStm across all its tables
 				stmStart := int64(zStart) + r.headerOffset
-				if !seen[stmStart] {
-					seen[stmStart] = true
+				stmKey, err := r.xrefKey(stmStart)
+				if err != nil {
+					return nil, nil, err
+				}
+				if !seen[stmKey] {
+					seen[stmKey] = true
 					s, err = r.scannerFrom(stmStart, false)
 					if err != nil {
 						return nil, nil, err
@@ -145,6 +170,20 @@ func (r *Reader) readXRef() (map[uint32]*xRefEntry, Dict, error) {
 	}
 
 	return xref, trailer, nil
+}
+
+// xrefKey returns the position of the first byte at or after pos which is
+// not white space (or part of a comment).
+func (r *Reader) xrefKey(pos int64) (int64, error) {
+	s, err := r.scannerFrom(pos, false)
+	if err != nil {
+		return 0, err
+	}
+	err = s.SkipWhiteSpace()
+	if err != nil && !isEndOfData(err) {
+		return 0, err
+	}
+	return s.CurrentPos(), nil
 }
 
 func readXRefTable(xref map[uint32]*xRefEntry, s *scanner) (Dict, error) {
